@@ -148,6 +148,7 @@ def run_vlex(prop, tier, plan, ev, findings):
         ev['samples'] += [dict(obligation='%s::%s' % (tag, c)) for c in r.get('inserted', [])[:2]]
         ev['rewrites'].update('V-lex %s: %s' % (r['defn'], w) for w in r.get('rewrites', []) if not w.startswith('L4 dropped attribute'))
         ev['assumptions_scanned'].update('%s: %s' % (os.path.basename(r.get('file', tag)), c.split(': ', 1)[1]) for c in r.get('cheats', []))
+        ev['assumptions_scanned'].update('V-lex %s: %s' % (r['defn'], a) for a in r.get('assumed', []))
         if r.get('status') == 'ok' and n_obl == 0:
             undecided.append('%s: zero obligations (vacuity guard)' % tag)
     vac = [c for c in o['canary_results'] if not c['failed_as_required']]
